@@ -117,3 +117,12 @@ Proof.
   intros i j Hi Hj. cbn in Hi, Hj.
   destruct i as [|[|[|i]]]; destruct j as [|[|[|j]]]; cbn; try lia; intros E; try discriminate; reflexivity.
 Qed.
+
+(* ---- xitorch/_core/packer.py:_get_unique_idxs as translated from /repo on this run (Gen/PyPackerIdx.v) computes the
+   model's get_unique_idxs, for every list of tensors ---- *)
+From XV Require Import Base.PyLib Gen.PyPackerIdx Proofs.PyUniqueProofs.
+Theorem C20_translated_unique_idxs_is_model : forall b : list tens,
+  packer_get_unique_idxs (map (fun t => tens_obj (tid t)) b) =
+  Ok (map Z.of_nat (fst (get_unique_idxs b)), map Z.of_nat (snd (get_unique_idxs b))).
+Proof. exact packer_get_unique_idxs_model. Qed.
+Print Assumptions C20_translated_unique_idxs_is_model.
